@@ -596,7 +596,14 @@ Step_C13 ==
                  Get0(earned', p) = (IF p \in paid THEN 0 ELSE Get0(earned, p))
             /\ \A x \in (DOMAIN oearned) \cup (DOMAIN oearned') :
                  Get0(oearned', x) = (IF x = o THEN Get0(oearned, o) - amt ELSE Get0(oearned, x))
-    /\ (waddr' # waddr) => (Ok(e, "SetWithdrawAddr") /\ waddr' = Put(waddr, e.signer, e.addr))
+    \* the address in force for an owner (itself, if it chose none) changes only by that owner's own message,
+    \* and then to the address the message names (how "the owner itself" is recorded is not the property's business)
+    /\ \A o \in (DOMAIN waddr) \cup (DOMAIN waddr') :
+          LET old == IF o \in DOMAIN waddr THEN waddr[o] ELSE o
+              new == IF o \in DOMAIN waddr' THEN waddr'[o] ELSE o
+          IN old # new => (Ok(e, "SetWithdrawAddr") /\ e.signer = o /\ new = e.addr)
+    /\ Ok(e, "SetWithdrawAddr") =>
+          (IF e.signer \in DOMAIN waddr' THEN waddr'[e.signer] ELSE e.signer) = e.addr
     /\ (~Ok(e, "Withdraw") /\ ~Ok(e, "Respond")) => (earned' = earned /\ oearned' = oearned)
 
 -----------------------------------------------------------------------------
